@@ -16,8 +16,8 @@ func init() {
 		Rules: []*Rule{
 			{ID: "C14.R1", Floor: 8, Doc: "lru.Cache methods only under preparedLRU.mu / inside the execIfMissing callback on its parameter", Run: c14r1},
 			{ID: "C14.R2", Floor: 2, Doc: "single flight: entry added in the callback under the looked-up key", Run: c14r2},
-			{ID: "C14.R3", Floor: 4, Doc: "preparing goroutine: defer close(done) first; every recorded error removes the entry before exit", Run: c14r3},
-			{ID: "C14.R4", Floor: 4, Doc: "cache key = (host id, connection keyspace, statement) identically at every site; keyFor uses all three", Run: c14r4},
+			{ID: "C14.R3", Floor: 2, Doc: "preparing goroutine: defer close(done) first; every recorded error removes the entry before exit", Run: c14r3},
+			{ID: "C14.R4", Floor: 3, Doc: "cache key = (host id, connection keyspace, statement) identically at every site; keyFor uses all three", Run: c14r4},
 			{ID: "C14.R5", Floor: 4, Doc: "UNPREPARED: evict by id then re-execute; eviction compares ids", Run: c14r5},
 			{ID: "C14.R6", Floor: 2, Doc: "bound-value count check dominates building the values", Run: c14r6},
 			{ID: "C14.R7", Floor: 2, Doc: "bounded cache: Add evicts beyond MaxEntries; size from MaxPreparedStmts", Run: c14r7},
@@ -68,12 +68,23 @@ func c14r1(p *Program, r *Report) {
 	})
 }
 
-func prepareParts(p *Program, r *Report) (fi *FuncInfo, keyObj types.Object, cb *ast.FuncLit, goLit *ast.FuncLit) {
+// prepGoroutine is the goroutine that performs the shared PREPARE: a function literal started by `go func(){}()`
+// or a method started by `go c.method(args)`.
+type prepGoroutine struct {
+	node   ast.Node       // the literal or the method declaration
+	body   *ast.BlockStmt // its body
+	g      *Graph
+	key    types.Object // the cache key inside the goroutine (captured variable or parameter)
+	method *FuncInfo    // nil for a literal
+}
+
+func prepareParts(p *Program, r *Report) (fi *FuncInfo, keyObj types.Object, cb *ast.FuncLit, gor *prepGoroutine) {
 	fi = r.NeedFunc("(*Conn).prepareStatement")
 	if fi == nil {
 		return
 	}
 	info := fi.Pkg.TypesInfo
+	var goStmt *ast.GoStmt
 	ast.Inspect(fi.Decl.Body, func(n ast.Node) bool {
 		switch x := n.(type) {
 		case *ast.AssignStmt:
@@ -89,13 +100,33 @@ func prepareParts(p *Program, r *Report) (fi *FuncInfo, keyObj types.Object, cb 
 				cb, _ = ast.Unparen(x.Args[1]).(*ast.FuncLit)
 			}
 		case *ast.GoStmt:
-			if l, ok := x.Call.Fun.(*ast.FuncLit); ok {
-				goLit = l
-			}
+			goStmt = x
 		}
 		return true
 	})
-	if keyObj == nil || cb == nil || goLit == nil {
+	if goStmt != nil && keyObj != nil {
+		if l, ok := goStmt.Call.Fun.(*ast.FuncLit); ok {
+			gor = &prepGoroutine{node: l, body: l.Body, g: p.GraphOfLit(fi, l), key: keyObj}
+		} else if fn := calleeOf(info, goStmt.Call); fn != nil {
+			if m := p.FuncOf(fn); m != nil && m.Decl.Body != nil && m.Pkg == p.Root {
+				// the key is handed over as an argument
+				k := 0
+				var keyParam types.Object
+				for _, pf := range m.Decl.Type.Params.List {
+					for _, pn := range pf.Names {
+						if k < len(goStmt.Call.Args) && isIdentOf(info, goStmt.Call.Args[k], keyObj) {
+							keyParam = m.Pkg.TypesInfo.Defs[pn]
+						}
+						k++
+					}
+				}
+				if keyParam != nil && neverAssigned(m.Pkg.TypesInfo, m.Decl.Body, keyParam) {
+					gor = &prepGoroutine{node: m.Decl, body: m.Decl.Body, g: p.GraphOf(m), key: keyParam, method: m}
+				}
+			}
+		}
+	}
+	if keyObj == nil || cb == nil || gor == nil {
 		r.Unresolved("prepareStatement: key variable / execIfMissing callback / preparing goroutine not found")
 		fi = nil
 	}
@@ -131,20 +162,21 @@ func c14r2(p *Program, r *Report) {
 }
 
 func c14r3(p *Program, r *Report) {
-	fi, keyObj, _, goLit := prepareParts(p, r)
+	fi, _, _, gor := prepareParts(p, r)
 	if fi == nil {
 		return
 	}
 	info := fi.Pkg.TypesInfo
+	keyObj := gor.key
 	// first statement: defer close(flight.done)
 	okDefer := false
-	if len(goLit.Body.List) > 0 {
-		if d, ok := goLit.Body.List[0].(*ast.DeferStmt); ok && calleeName(info, d.Call) == "builtin.close" && len(d.Call.Args) == 1 && p.isField(info, d.Call.Args[0], "inflightPrepare", "done") {
+	if len(gor.body.List) > 0 {
+		if d, ok := gor.body.List[0].(*ast.DeferStmt); ok && calleeName(info, d.Call) == "builtin.close" && len(d.Call.Args) == 1 && p.isField(info, d.Call.Args[0], "inflightPrepare", "done") {
 			okDefer = true
 		}
 	}
-	r.Check(okDefer, goLit, "(*Conn).prepareStatement goroutine closes done by a first defer", "waiters are released on every exit, including panics", "the preparing goroutine does not start with `defer close(flight.done)`: a path (or a panic) can leave every waiter blocked forever")
-	g := p.GraphOfLit(fi, goLit)
+	r.Check(okDefer, gor.node, "(*Conn).prepareStatement goroutine closes done by a first defer", "waiters are released on every exit, including panics", "the preparing goroutine does not start with `defer close(flight.done)`: a path (or a panic) can leave every waiter blocked forever")
+	g := gor.g
 	type st struct{ pending bool }
 	sol := Solve(g, Lattice[st]{
 		Join: func(a, b st) st { return st{a.pending || b.pending} },
@@ -234,8 +266,8 @@ func c14r4(p *Program, r *Report) {
 			return true
 		})
 	})
-	if n < 3 {
-		r.Unresolved("fewer than 3 keyFor call sites (%d)", n)
+	if n < 2 {
+		r.Unresolved("fewer than 2 keyFor call sites (%d)", n)
 	}
 	for _, s := range shapes {
 		if s != shapes[0] {
@@ -294,6 +326,26 @@ func c14r5(p *Program, r *Report) {
 						evictPos = c.Pos()
 						if len(c.Args) == 2 && strings.HasSuffix(exprStr(c.Args[1]), ".StatementId") {
 							idOK = true
+						}
+					} else if fn := calleeOf(info, c); fn != nil && !fn.Exported() {
+						// a helper that evicts by the id it is given
+						if h := p.FuncOf(fn); h != nil && h.Pkg == p.Root && h.Decl.Body != nil && h.Name != name {
+							for _, hc := range callsIn(h.Decl.Body) {
+								if isCallTo(info, hc, "(*preparedLRU).evictPreparedID") && len(hc.Args) == 2 {
+									k := 0
+									for _, pf := range h.Decl.Type.Params.List {
+										for _, pn := range pf.Names {
+											if isIdentOf(info, hc.Args[1], info.Defs[pn]) && neverAssigned(info, h.Decl.Body, info.Defs[pn]) && k < len(c.Args) {
+												evictPos = c.Pos()
+												if strings.HasSuffix(exprStr(c.Args[k]), ".StatementId") {
+													idOK = true
+												}
+											}
+											k++
+										}
+									}
+								}
+							}
 						}
 					}
 					if isCallTo(info, c, name) && rexecPos == token.NoPos {
@@ -363,6 +415,15 @@ func c14r6(p *Program, r *Report) {
 					okCount = true
 				}
 			}
+			if !okCount {
+				// through a local copy of the count: len(values) == want and want == ...actualColCount
+				d := newDBM(g, f, nil)
+				for node := range d.nodes {
+					if strings.HasSuffix(node, ".actualColCount") && d.le(node, 0, "len(values)", 0) && d.le("len(values)", 0, node, 0) {
+						okCount = true
+					}
+				}
+			}
 			r.Check(okCount, c, name+" marshals bound values after the count check", "len(values) == actualColCount known", "bound values are marshalled without the check that their number equals the statement's bind markers: a wrong count is sent (or indexes the column list out of range) instead of being reported")
 			return true
 		})
@@ -418,22 +479,39 @@ func c14r7(p *Program, r *Report) {
 }
 
 func c14r8(p *Program, r *Report) {
-	fi, _, _, goLit := prepareParts(p, r)
+	fi, _, _, gor := prepareParts(p, r)
 	if fi == nil {
 		return
 	}
 	info := fi.Pkg.TypesInfo
 	n := 0
-	ast.Inspect(goLit.Body, func(x ast.Node) bool {
-		c, ok := x.(*ast.CallExpr)
-		if !ok || !isCallTo(info, c, "(*Conn).exec") {
-			return true
+	// the goroutine and the helpers it was split into
+	bodies := []ast.Node{gor.body}
+	if gor.method != nil {
+		for _, u := range p.unitsOf(gor.method)[1:] {
+			bodies = append(bodies, u.Decl.Body)
 		}
-		n++
-		r.Check(len(c.Args) > 0 && p.isField(info, c.Args[0], "Conn", "ctx"), c, "(*Conn).prepareStatement PREPARE runs on the connection context", "c.ctx: the shared PREPARE outlives the caller that started it",
-			"the shared PREPARE is executed on "+exprStr(c.Args[0])+" instead of the connection's context: when the caller that won the race is cancelled, every other executor waiting for this PREPARE fails with that caller's context error")
-		return true
-	})
+	} else {
+		for _, c := range callsIn(gor.body) {
+			if fn := calleeOf(info, c); fn != nil && !fn.Exported() {
+				if u := p.FuncOf(fn); u != nil && u.Pkg == p.Root && u.Decl.Body != nil && u.Name != "(*Conn).exec" {
+					bodies = append(bodies, u.Decl.Body)
+				}
+			}
+		}
+	}
+	for _, body := range bodies {
+		ast.Inspect(body, func(x ast.Node) bool {
+			c, ok := x.(*ast.CallExpr)
+			if !ok || !isCallTo(info, c, "(*Conn).exec") {
+				return true
+			}
+			n++
+			r.Check(len(c.Args) > 0 && p.isField(info, c.Args[0], "Conn", "ctx"), c, "(*Conn).prepareStatement PREPARE runs on the connection context", "c.ctx: the shared PREPARE outlives the caller that started it",
+				"the shared PREPARE is executed on "+exprStr(c.Args[0])+" instead of the connection's context: when the caller that won the race is cancelled, every other executor waiting for this PREPARE fails with that caller's context error")
+			return true
+		})
+	}
 	if n == 0 {
 		r.Unresolved("preparing goroutine does not call exec")
 	}
